@@ -1,6 +1,7 @@
 import Grass.Builtins
 import GrassProofs.Lemmas.Builtins
 import GrassProofs.Lemmas.BuiltinsStr
+import GrassProofs.Lemmas.BuiltinsNamed
 /-
   C14 — list, map and string built-ins implement their documented semantics.
 
@@ -9,7 +10,12 @@ import GrassProofs.Lemmas.BuiltinsStr
   from the documentation that this check found (K14a–K14d, all repaired since: `Sw.now` = the code as
   it stands = documented, `Sw.beforeFix` = the code before the repairs); a theorem that needs the
   documented variant of a rule says so by a hypothesis such as `sw.appendAsList = true` and has a
-  `…_now` corollary without it; all others hold for both variants.  `numI n u` is the number `n` (an integer) with unit `u`.
+  `…_now` corollary without it; all others hold for both variants.  Round 3 added the open deviation
+  K14e (`sw.namedStrict`: named arguments validated; `Sw.now` has it `false`, `Sw.spec` `true`) and the
+  section "round 3" (index, string.split, key paths, deep-remove along a path, named = positional,
+  module member = global alias).  Still not proved (tied by correspondence / laws only): the nested
+  form of `map-merge`, the order of the key list of `map-merge`, "every other path unchanged" for
+  `map.deep-remove`, named arguments of the variadic functions.  `numI n u` is the number `n` (an integer) with unit `u`.
   The `law…` predicates are the per-input predicates the check evaluates on grass's own answers
   (`blt law …`); each theorem ends by stating that the model's answers satisfy them.
 
@@ -859,18 +865,272 @@ theorem C14_deep_remove_get (sw : Sw) (h : sw.eq.removeEq = true) (m : VPairs) (
     · simp [mapGetF, assertMap, tryMap, getPath, getD, hn]
     · simp [mapHasKeyF, assertMap, tryMap, hn]
 
-/-! ## what is NOT proved here
-  No theorem is stated for `index` (it is `indexOf` of Grass/Value.lean, C09's subject), for
-  `string.split`, for the nested-key forms of `map-merge`, `map-has-key`, `map.deep-remove` with a key
-  path, nor for the order of the key list of `map-merge` (`C14_keys_merge` is about membership).
-  Those are tied to the documentation only through the correspondence run of tools/props/c14.py
-  (model = the code, function by function) and, for `index`, through C09.
--/
-
-/-! ## witnesses for the code before the repairs (`Sw.beforeFix`) against the code as it stands (`Sw.now`) -/
+/-! ## round 3: `index`, `string.split`, key paths, named arguments, module members -/
 
 def isErr (r : R) (e : Err) : Bool := match r with | .error x => x == e | _ => false
 def isOk (r : R) (v : Value) : Bool := match r with | .ok x => sameV x v | _ => false
+
+/-- `index(l, v)` is the 1-based position of the FIRST element `== v`: that element is `== v`, none
+    before it is; `null` iff no element is `== v` -/
+theorem C14_index_first (sw : Sw) (l v : Value) :
+    (∀ i, indexOf sw.eq (asList l) v = some i →
+      indexF sw [l, v] = .ok (natV (i + 1)) ∧
+      (∃ x, (elems l)[i]? = some x ∧ veq sw.eq x v = true) ∧
+      (∀ j, j < i → ∀ y, (elems l)[j]? = some y → veq sw.eq y v = false) ∧
+      lawIndexFirst sw l v (natV (i + 1)) = true) ∧
+    (indexOf sw.eq (asList l) v = none →
+      indexF sw [l, v] = .ok .null ∧ (∀ y, y ∈ elems l → veq sw.eq y v = false) ∧
+      lawIndexFirst sw l v .null = true) ∧
+    (indexF sw [l, v] = .ok .null → ∀ y, y ∈ elems l → veq sw.eq y v = false) := by
+  refine ⟨?_, ?_, ?_⟩
+  · intro i h
+    obtain ⟨⟨x, hx, hxv⟩, hlt⟩ := indexOf_some sw.eq (asList l) v i h
+    refine ⟨by simp [indexF, h], ⟨x, hx, hxv⟩, hlt, ?_⟩
+    have hx' : (elems l)[i]? = some x := hx
+    simp only [lawIndexFirst, natV]
+    have hn : natOf (natV (i + 1)) = some (i + 1) := natOf_natV _
+    simp only [natV] at hn
+    simp only [hn, hx', hxv, Bool.true_and, List.all_eq_true, List.mem_range]
+    intro j hj
+    cases hy : (elems l)[j]? with
+    | none => rfl
+    | some y => simp [hlt j hj y hy]
+  · intro h
+    have hn := (indexOf_none sw.eq (asList l) v).mp h
+    refine ⟨by simp [indexF, h], hn, ?_⟩
+    simp only [lawIndexFirst, List.all_eq_true]
+    intro e he
+    simp [hn e he]
+  · intro h
+    cases hi : indexOf sw.eq (asList l) v with
+    | none => exact (indexOf_none sw.eq (asList l) v).mp hi
+    | some i => simp [indexF, hi, natV] at h
+
+example : isOk (indexF Sw.now [mkList [.str "a".toList false, .str "b".toList true, .str "b".toList false] .space false,
+    .str "b".toList false]) (natV 2) = true := by decide +kernel
+
+theorem limitArg_nat (k : Nat) (h : 1 ≤ k) : limitArg (some (numI (k : Int) .none)) = .ok (some k) := by
+  have : ¬ ((k : Int) < 1) := by omega
+  simp [limitArg, numI, asInt_intCast, this]
+
+theorem lawSplitJoin_pieces (s sep : List Char) (q q' : Bool) (lim : Option Nat) (ps : List (List Char))
+    (h1 : joinWith sep ps = s) (h2 : 1 ≤ ps.length) (h3 : ∀ k, lim = some k → ps.length ≤ k + 1) :
+    lawSplitJoin (.str s q) (.str sep q') lim (mkList (ps.map (fun p => Value.str p true)) .comma true) = true := by
+  simp only [lawSplitJoin, strOf, mkList, toList_ofList, strsOf_map, h1, decide_true, Bool.true_and, h2]
+  cases lim with
+  | none => rfl
+  | some k => simpa using h3 k rfl
+
+/-- `string.split(s, sep[, limit])` for EVERY `s` and `sep` (empty ones included): a bracketed comma
+    list of quoted strings that, joined with `sep`, give `s` back; with `$limit: k` (`k ≥ 1`) at most
+    `k + 1` of them; a limit below 1 is an error -/
+theorem C14_split_join (s sep : List Char) (q q' : Bool) :
+    (∃ ps, splitF [.str s q, .str sep q'] = .ok (mkList (ps.map (fun p => Value.str p true)) .comma true) ∧
+      joinWith sep ps = s ∧ 1 ≤ ps.length ∧
+      lawSplitJoin (.str s q) (.str sep q') none (mkList (ps.map (fun p => Value.str p true)) .comma true) = true) ∧
+    (∀ k : Nat, 1 ≤ k →
+      ∃ ps, splitF [.str s q, .str sep q', numI (k : Int) .none] = .ok (mkList (ps.map (fun p => Value.str p true)) .comma true) ∧
+        joinWith sep ps = s ∧ 1 ≤ ps.length ∧ ps.length ≤ k + 1 ∧
+        lawSplitJoin (.str s q) (.str sep q') (some k) (mkList (ps.map (fun p => Value.str p true)) .comma true) = true) ∧
+    (∀ k : Int, k < 1 → splitF [.str s q, .str sep q', numI k .none] = .error .limitRange) := by
+  refine ⟨?_, ?_, ?_⟩
+  · refine ⟨splitPieces sep (s.length + 1) s, by simp [splitF, assertString, limitArg], joinWith_splitPieces _ _ _,
+      (length_splitPieces_le _ _ _).2, ?_⟩
+    exact lawSplitJoin_pieces s sep q q' none _ (joinWith_splitPieces _ _ _) (length_splitPieces_le _ _ _).2 (by simp)
+  · intro k hk
+    refine ⟨splitPieces sep k s, by simp [splitF, assertString, limitArg_nat k hk], joinWith_splitPieces _ _ _,
+      (length_splitPieces_le _ _ _).2, (length_splitPieces_le _ _ _).1, ?_⟩
+    exact lawSplitJoin_pieces s sep q q' (some k) _ (joinWith_splitPieces _ _ _) (length_splitPieces_le _ _ _).2
+      (by intro k' hk'; cases hk'; exact (length_splitPieces_le _ _ _).1)
+  · intro k hk
+    simp [splitF, assertString, limitArg, numI, asInt_intCast, hk]
+
+example : isOk (splitF [.str "a,b,,c".toList true, .str ",".toList true, numI 2 .none])
+    (mkList [.str "a".toList true, .str "b".toList true, .str ",c".toList true] .comma true) = true := by decide +kernel
+
+theorem splitEmptyRest_all (k : Nat) (s : List Char) (h : s.length ≤ k) :
+    splitEmptyRest k s = s.map (fun c => [c]) ++ [[]] := by
+  fun_induction splitEmptyRest k s <;> simp_all
+
+/-- the empty operands, as the code behaves (`str::split`): an empty separator cuts at every code-point
+    boundary, the two ends included; an empty string is one empty piece -/
+theorem C14_split_empty_operands (s sep : List Char) (q q' : Bool) :
+    splitF [.str s q, .str [] q'] =
+      .ok (mkList (([] :: (s.map (fun c => [c]) ++ [[]])).map (fun p => Value.str p true)) .comma true) ∧
+    (sep ≠ [] → splitF [.str [] q, .str sep q'] = .ok (mkList [.str [] true] .comma true)) := by
+  constructor
+  · simp [splitF, assertString, limitArg, splitPieces, splitEmpty, splitEmptyRest_all]
+  · intro h
+    simp [splitF, assertString, limitArg, splitPieces, h, splitAux]
+
+theorem mapHasKeyF_path (sw : Sw) (m : VPairs) (k : Value) (ks : List Value) :
+    mapHasKeyF sw (.map m :: k :: ks) = .ok (.bool (hasPath sw (k :: ks) (.map m))) := by
+  simp only [mapHasKeyF, assertMap, tryMap, hasPath]
+  cases Grass.Value.get sw.eq m k <;> rfl
+
+/-- nested keys: `map-get(m, k₁ … kₙ, k)` / `map-has-key(m, k₁ … kₙ, k)` are the single-level functions on
+    the nested map the path `k₁ … kₙ` leads to; `null` / `false` when a key on the path is missing or its
+    value is not a map -/
+theorem C14_get_has_key_path (sw : Sw) (m : VPairs) (ks : List Value) (k : Value) :
+    mapGetF sw (.map m :: (ks ++ [k])) =
+      .ok (match subMap sw ks (.map m) with | some m' => (Grass.Value.get sw.eq m' k).getD .null | none => .null) ∧
+    mapHasKeyF sw (.map m :: (ks ++ [k])) =
+      .ok (.bool (match subMap sw ks (.map m) with | some m' => (Grass.Value.get sw.eq m' k).isSome | none => false)) := by
+  have hg := getPath_snoc sw ks k (.map m)
+  have hh := hasPath_snoc sw ks k (.map m)
+  cases ks with
+  | nil =>
+    simp only [List.nil_append] at hg hh ⊢
+    rw [mapGetF_path, mapHasKeyF_path, hg, hh]
+    exact ⟨rfl, rfl⟩
+  | cons a t =>
+    simp only [List.cons_append] at hg hh ⊢
+    rw [mapGetF_path, mapHasKeyF_path, hg, hh]
+    exact ⟨rfl, rfl⟩
+
+example : (subMap Sw.now [.str "a".toList false]
+    (.map (.cons (.str "a".toList false) (.map (.cons (.str "b".toList false) .null .nil)) .nil))).isSome = true := by
+  decide +kernel
+
+/-- a key whose value is `null` is there: `map-has-key` is `true` while `map-get` is `null` -/
+example : isOk (mapHasKeyF Sw.now [.map (.cons (.str "a".toList false) (.map (.cons (.str "b".toList false) .null .nil)) .nil),
+    .str "a".toList false, .str "b".toList false]) (.bool true) = true ∧
+  isOk (mapGetF Sw.now [.map (.cons (.str "a".toList false) (.map (.cons (.str "b".toList false) .null .nil)) .nil),
+    .str "a".toList false, .str "b".toList false]) .null = true := by decide +kernel
+
+/-- `map.deep-remove(m, k₁ … kₙ, last)` (`n ≥ 1`, removal by `==`, `x == x` for the keys on the path):
+    afterwards the path reads `null` and `map-has-key` along it is `false` — also when a key on the path was
+    missing (the code then stores `kₙ: null` at the last level, which reads `null` as well).
+    That every OTHER path reads as before is not proved here (it is the law `deep_remove` the check
+    evaluates on grass's own answers, and part of the correspondence). -/
+theorem C14_deep_remove_path (sw : Sw) (h : sw.eq.removeEq = true) (m : VPairs) (k1 : Value) (ks : List Value) (last : Value)
+    (hr : ∀ x, x ∈ k1 :: ks → veq sw.eq x x = true) :
+    ∃ r, deepRemoveF sw (.map m :: (k1 :: ks ++ [last])) = .ok (.map r) ∧
+      mapGetF sw (.map r :: (k1 :: ks ++ [last])) = .ok .null ∧
+      mapHasKeyF sw (.map r :: (k1 :: ks ++ [last])) = .ok (.bool false) ∧
+      lawDeepRemove .null .null .null = true := by
+  have key : ∀ (l : List Value), (l ++ [last]).getLast?.getD .null = last ∧ (l ++ [last]).dropLast = l := by
+    intro l; simp
+  obtain ⟨hl, hd⟩ := key (k1 :: ks)
+  simp only [List.cons_append] at hl hd
+  refine ⟨modNested sw last (k1 :: ks) m, ?_, ?_, ?_, by simp [lawDeepRemove, sameV]⟩
+  · simp only [List.cons_append, deepRemoveF, assertMap, tryMap, hl, hd]
+  · have := (C14_get_has_key_path sw (modNested sw last (k1 :: ks) m) (k1 :: ks) last).1
+    rw [this]
+    cases hs : subMap sw (k1 :: ks) (.map (modNested sw last (k1 :: ks) m)) with
+    | none => rfl
+    | some m' => simp [subMap_modNested sw h last (k1 :: ks) (by simp) hr m m' hs]
+  · have := (C14_get_has_key_path sw (modNested sw last (k1 :: ks) m) (k1 :: ks) last).2
+    rw [this]
+    cases hs : subMap sw (k1 :: ks) (.map (modNested sw last (k1 :: ks) m)) with
+    | none => rfl
+    | some m' => simp [subMap_modNested sw h last (k1 :: ks) (by simp) hr m m' hs]
+
+example : isOk (deepRemoveF Sw.now [.map (.cons (.str "a".toList false) (natV 1) .nil), .str "z".toList false, .str "y".toList false])
+    (.map (.cons (.str "a".toList false) (natV 1) (.cons (.str "z".toList false) .null .nil))) = true := by decide +kernel
+
+/-! ### named arguments -/
+
+/-- **named call = positional call.**  `f` a fixed-arity built-in whose parameters are `pre ++ mid ++ post`;
+    the `pre` ones are given by position, the `mid` ones by name (in any order; `vals` are their values
+    in parameter order), the `post` ones not at all: the call answers what the all-positional call
+    answers.  (Under the documented variant the names must pass its guards, which they do — see
+    `C14_named_guard`.) -/
+theorem C14_named_eq_positional (sw : Sw) (f : String) (sg : Sig) (pre mid post : List String)
+    (pos vals : List Value) (nm : Named)
+    (hsig : sigOf f = some sg) (hmax : sg.max = some sg.params.length) (hpar : sg.params = pre ++ (mid ++ post))
+    (hf : (f == "slash") = false ∧ (f == "map-merge") = false ∧ (f == "map-set") = false)
+    (hpos : pre.length = pos.length) (hnm : nm.length = mid.length) (hne : nm.isEmpty = false)
+    (hpre : ∀ p, p ∈ pre → nm.get p = none) (hmid : mid.map nm.get = vals.map some)
+    (hpost : ∀ p, p ∈ post → nm.get p = none)
+    (hstrict : sw.namedStrict = true → namesKnown f nm = true ∧ namesFresh f pos.length nm = true) :
+    callN sw f pos nm = call sw f (pos ++ vals) := by
+  have hslots : fillSlots (slotsOf nm sg.params pos) sg.defaults = pos ++ vals := by
+    rw [hpar, slotsOf_prefix nm pre (mid ++ post) pos hpos hpre, List.map_append, hmid, ← List.append_assoc,
+      ← List.map_append]
+    exact fillSlots_some _ _ _ (by
+      intro x hx
+      obtain ⟨p, hp, rfl⟩ := List.mem_map.mp hx
+      exact hpost p hp)
+  have hlen : ¬ (sg.params.length < pos.length + nm.length) := by
+    rw [hpar, hnm, ← hpos]; simp only [List.length_append]; omega
+  have hcode : callCode sw f pos nm = call sw f (pos ++ vals) := by
+    simp [callCode, hf.1, hf.2.1, hf.2.2, hsig, hmax, hlen, hslots]
+  unfold callN
+  simp only [hne]
+  cases hs : sw.namedStrict with
+  | false => simpa using hcode
+  | true =>
+    obtain ⟨h1, h2⟩ := hstrict hs
+    simp [h1, h2, hf.2.1, hf.2.2, hcode]
+
+/-- `join(a, b, $bracketed: true, $separator: comma)` is `join(a, b, comma, true)` -/
+example (sw : Sw) (a b : Value) :
+    callN sw "join" [a, b] [("bracketed", .bool true), ("separator", .str "comma".toList false)] =
+      call sw "join" [a, b, .str "comma".toList false, .bool true] := by
+  refine C14_named_eq_positional sw "join" ⟨["list1", "list2", "separator", "bracketed"], some 4, [none, none, some autoV, some autoV]⟩
+    ["list1", "list2"] ["separator", "bracketed"] [] [a, b] [.str "comma".toList false, .bool true] _
+    (by simp [sigOf, sigTable, List.lookup]) rfl rfl (by decide +kernel) rfl rfl rfl ?_ ?_ (by simp) ?_
+  · intro p hp; simp at hp; rcases hp with rfl | rfl <;> simp [Named.get, List.find?]
+  · simp [Named.get, List.find?]
+  · intro _
+    simp only [List.length_cons, List.length_nil]
+    decide +kernel
+
+/-- an optional parameter left out in between takes its default: `join(a, b, $bracketed: v)` is
+    `join(a, b, auto, v)` -/
+theorem C14_named_default_between (sw : Sw) (a b v : Value) :
+    callN sw "join" [a, b] [("bracketed", v)] = call sw "join" [a, b, autoV, v] := by
+  cases hs : sw.namedStrict <;>
+    simp [callN, callCode, hs, sigOf, sigTable, List.lookup, slotsOf, fillSlots, Named.get, List.find?,
+      namesKnown, namesFresh, docParams, noDup]
+
+/-- what the documented variant demands of the names: each is a parameter, none twice, none also
+    given by position; otherwise the call is an error (K14e: the code accepts such calls) -/
+theorem C14_named_guard (sw : Sw) (h : sw.namedStrict = true) (f : String) (pos : List Value) (nm : Named)
+    (hne : nm.isEmpty = false) :
+    (namesKnown f nm = false → callN sw f pos nm = some (.error .noNamedArg)) ∧
+    (namesKnown f nm = true → (f == "map-merge") = false → (f == "map-set") = false → namesFresh f pos.length nm = false →
+      callN sw f pos nm = some (.error .dupArg)) := by
+  constructor
+  · intro hk; simp [callN, hne, h, hk]
+  · intro hk h1 h2 hf; simp [callN, hne, h, hk, h1, h2, hf]
+
+/-- K14e (open): the code accepts a name that is no parameter and a parameter given twice; documented: an error -/
+theorem C14_asFound_named_unchecked :
+    isOk ((callN Sw.now "join" [.str "a".toList false, .str "b".toList false] [("foo", natV 1)]).getD (.error .unsupported))
+      (mkList [.str "a".toList false, .str "b".toList false] .space false) = true ∧
+    isErr ((callN { Sw.now with namedStrict := true } "join" [.str "a".toList false, .str "b".toList false] [("foo", natV 1)]).getD (.ok .null))
+      .noNamedArg = true ∧
+    isOk ((callN Sw.now "append" [mkList [natV 1, natV 2] .space false, natV 3] [("val", natV 4)]).getD (.error .unsupported))
+      (mkList [natV 1, natV 2, natV 4] .space false) = true ∧
+    isErr ((callN { Sw.now with namedStrict := true } "append" [mkList [natV 1, natV 2] .space false, natV 3] [("val", natV 4)]).getD (.ok .null))
+      .dupArg = true := by
+  decide +kernel
+
+/-! ### module members ≡ global aliases -/
+
+/-- every member of `sass:list`, `sass:map`, `sass:string` (but `unique-id`) is modelled, and a member
+    implemented by the same Rust function as a global name is the same model function: the two calls
+    are equal for all arguments, positional and named, under every variant -/
+theorem C14_module_alias_same (sw : Sw) (mod mem g : String) (pos : List Value) (nm : Named)
+    (h : rustOfMember mod mem = rustOfGlobal g) :
+    callMember sw mod mem pos nm = callGlobal sw g pos nm := by
+  simp only [callMember, callGlobal, h]
+
+/-- the premise holds for every global name of a list/map/string function, with the member the check calls -/
+theorem C14_module_alias_table :
+    (Grass.Generated.moduleTable.filter (fun e => e.1 == "list" || e.1 == "map" || e.1 == "string")).all
+      (fun e => e.2.1 == "unique-id" || (modelOfRust e.2.2).isSome) = true ∧
+    (Grass.Generated.globalTable.filter (fun e => (modelOfRust e.2).isSome)).all
+      (fun e => (Grass.Generated.moduleTable.any (fun m => m.2.2 == e.2 && rustOfMember m.1 m.2.1 == rustOfGlobal e.1))) = true ∧
+    rustOfMember "list" "separator" = rustOfGlobal "list-separator" ∧
+    rustOfMember "map" "get" = rustOfGlobal "map-get" ∧
+    rustOfMember "string" "slice" = rustOfGlobal "str-slice" := by
+  decide +kernel
+
+/-! ## witnesses for the code before the repairs (`Sw.beforeFix`) against the code as it stands (`Sw.now`) -/
+
 
 def m2 : Value := .map (.cons (.str "a".toList false) (natV 1) (.cons (.str "c".toList false) (natV 2) .nil))
 def l3 : Value := mkList [.str "a".toList false, .str "b".toList false, .str "c".toList false] .space false
